@@ -14,84 +14,146 @@ def _calls(node, suffix):
     return [n for n in ast.walk(node) if isinstance(n, ast.Call) and U(n.func).endswith(suffix)]
 
 
+def _guard_truth(test, ap, fn_node=None):
+    """truth table of a guard over (file_exists, append_mode) -> {(e, a): bool} or None"""
+    from ..consteval import fold, NotConst
+    import copy
+    if fn_node is not None:
+        # locals assigned exactly once from an expression over file_exists / append_mode are substituted
+        defs = {}
+        counts = {}
+        for n in ast.walk(fn_node):
+            if isinstance(n, ast.Assign) and len(n.targets) == 1 and isinstance(n.targets[0], ast.Name):
+                counts[n.targets[0].id] = counts.get(n.targets[0].id, 0) + 1
+                defs[n.targets[0].id] = n.value
+
+        class Sub(ast.NodeTransformer):
+            def visit_Name(self, n):
+                if isinstance(n.ctx, ast.Load) and counts.get(n.id) == 1 and n.id != ap:
+                    return self.visit(copy.deepcopy(defs[n.id]))
+                return n
+        try:
+            test = Sub().visit(copy.deepcopy(test))
+        except RecursionError:
+            pass
+    tbl = {}
+    for e in (False, True):
+        for a_ in (False, True):
+            try:
+                tbl[(e, a_)] = bool(fold(test, {"self.file_exists": e, ap: a_}))
+            except NotConst:
+                return None
+    return tbl
+
+
 def vf1(ctx, c):
     """VF-1 guard before write; VF-5 rebuild before write; VF-7 whole list in order; kind pairing."""
+    from ..inline import flatten
     repo = ctx.repo
     fn = repo.method(VF, "save_virtual_file")
     where = repo.loc(fn, fn.node)
-    fn_node = _inline_raising_helpers(repo, fn)
+    fn_node = flatten(repo, fn, depth=3)
     g = CFG(fn_node)
     writes = g.find(lambda k, n: k == "stmt" and any(U(x.func).endswith(".write_file") for x in ast.walk(n) if isinstance(x, ast.Call)))
     params = [p for p in fn.params if p != "self"]
     ap = params[0] if params else "append_mode"
-
-    def is_guard(k, n):
-        if k != "test":
-            return False
-        t = U(n)
-        return "file_exists" in t and ap in t
-    guards = g.find(is_guard)
+    tests = g.find(lambda k, n: k == "test" and "file_exists" in U(n))
     c.floor("host write sites in save_virtual_file", len(writes), 1)
     for w in writes:
         node = g.nodes[w][2]
-        ok = False
-        for gd in guards:
-            t = g.nodes[gd][2]
-            # the guard must be exactly: file_exists and not append_mode  (true edge raises)
-            form = isinstance(t, ast.BoolOp) and isinstance(t.op, ast.And) and sorted(U(v) for v in t.values) == sorted(["self.file_exists", "not %s" % ap])
-            if form and w not in g.reachable(avoid_edges=[(gd, False)]) and g.only_raises_after(gd, True):
-                ok = True
-        c.check(ok, "save_virtual_file:write@%s" % _branch_kind(fn_node, node), "dominated by `file_exists and not append_mode -> raise`", "write not dominated by the overwrite guard",
-                "VirtualFile.save_virtual_file reaches %s without passing the guard that refuses to overwrite an existing file when --append was not given" % U(node), repo.loc(fn, node))
-    # per kind branch: container class, add_files(whole list), set_buffer(container.get_buffer()) before write
-    branches = [n for n in body_without_doc(fn_node) if isinstance(n, ast.If) and "virtual_file_type" in U(n.test)]
-    c.floor("container kinds handled by save_virtual_file", len(branches), 3)
-    seen = set()
-    for b in branches:
-        m = re.search(r"VirtualFileType\.(\w+)", U(b.test))
-        kind = m.group(1) if m else "?"
-        seen.add(kind)
-        site = "save_virtual_file:%s" % kind
+        verdict = None
+        why = ""
+        unknown_guard = None
+        tests = g.find(lambda k, n: k == "test")
+        for t in tests:
+            tn = g.nodes[t][2]
+            for raise_label in (True, False):
+                if not g.only_raises_after(t, raise_label):
+                    continue
+                if w in g.reachable(avoid_edges=[(t, not raise_label)]):
+                    continue        # the write does not depend on this test
+                tbl = _guard_truth(tn, ap, fn_node)
+                if tbl is None:
+                    if "file_exists" in U(tn) or ap in U(tn) or any(isinstance(x, ast.Name) for x in ast.walk(tn)):
+                        unknown_guard = U(tn)
+                    continue
+                # the test dominates the write; does it raise exactly when the file exists and append was not requested?
+                refuses = {k for k, v in tbl.items() if v == raise_label}
+                if refuses == {(True, False)}:
+                    verdict = True
+                else:
+                    verdict = verdict or False
+                    why = "the guard `%s` refuses for (exists, append) in %s" % (U(tn), sorted(refuses))
+        site = "save_virtual_file:write@%s" % _branch_kind(fn_node, node)
+        if verdict is True:
+            c.ok(site, "dominated by a guard that raises exactly when the target exists and append was not requested", repo.loc(fn, node))
+        elif verdict is None and unknown_guard is not None:
+            c.undecided(site, "a raising test dominates the write but its condition is not evaluable", unknown_guard, repo.loc(fn, node))
+        elif verdict is False:
+            c.finding(site, "overwrite guard has the wrong condition", "VirtualFile.save_virtual_file: %s; it must refuse exactly when the target exists and --append was not given" % why, repo.loc(fn, node))
+        else:
+            c.finding(site, "write not dominated by the overwrite guard",
+                      "VirtualFile.save_virtual_file reaches %s without passing a guard that refuses to overwrite an existing file when --append was not given" % U(node), repo.loc(fn, node))
+        # rebuild sequence in the block of the write
+        blk = _block_of(fn_node, node)
+        if blk is None:
+            c.undecided(site + ":sequence", "block-not-found", "", repo.loc(fn, node))
+            continue
+        before = blk[:blk.index(node)]
+        setb = [x for st in before for x in ast.walk(st) if isinstance(x, ast.Call) and U(x.func).endswith(".set_buffer")]
+        addf = [x for st in before for x in ast.walk(st) if isinstance(x, ast.Call) and U(x.func).endswith(".add_files")]
+        if not setb or not addf:
+            c.undecided(site + ":sequence", "rebuild-steps-not-in-the-write's-block", "set_buffer: %d, add_files: %d" % (len(setb), len(addf)), repo.loc(fn, node))
+            continue
+        m = re.fullmatch(r"(\w+)\.get_buffer\(\)", U(setb[-1].args[0])) if setb[-1].args else None
+        cont = m.group(1) if m else None
+        good_add = [x for x in addf if U(x.func) == "%s.add_files" % cont and [U(a_) for a_ in x.args] == ["self.coco_file_list"]]
+        if cont is None:
+            c.finding(site + ":sequence", "the buffer written is %s" % (U(setb[-1].args[0])[:40] if setb[-1].args else "?"),
+                      "save_virtual_file hands %s to the source file; it must be the buffer of the container that was just rebuilt" % (U(setb[-1].args[0]) if setb[-1].args else "?"), repo.loc(fn, node))
+        elif not good_add:
+            c.finding(site + ":sequence", "container %s is filled with %s" % (cont, [U(a_) for x in addf for a_ in x.args]),
+                      "save_virtual_file must rebuild the image from the WHOLE file list (add_files(self.coco_file_list)) in the container whose buffer it writes; it calls %s" % [U(x)[:60] for x in addf],
+                      repo.loc(fn, node))
+        elif good_add[0].lineno > setb[-1].lineno:
+            c.finding(site + ":sequence", "buffer taken before the files are added", "save_virtual_file takes the container's buffer before adding the files", repo.loc(fn, node))
+        else:
+            c.ok(site + ":sequence", "add_files(whole list) -> set_buffer(container buffer) -> write", repo.loc(fn, node))
+        # the container is fresh and of the kind being saved
         ctor = None
-        var = None
-        order = []
-        for st in b.body:
-            t = U(st)
-            if isinstance(st, ast.Assign) and isinstance(st.value, ast.Call) and U(st.value.func) in KINDS.values():
-                ctor, var = U(st.value.func), U(st.targets[0])
-                order.append("new")
-                c.check(not st.value.args and not st.value.keywords, site + ":fresh", "fresh empty container", "constructed as %s" % U(st.value),
-                        "the %s image is not rebuilt from an empty container: %s" % (kind, U(st.value)), repo.loc(fn, st))
-            elif var and re.fullmatch(r"%s\.add_files\(self\.coco_file_list\)" % re.escape(var), t):
-                order.append("add_files")
-            elif var and ".add_file" in t:
-                order.append("add?:" + t[:40])
-            elif isinstance(st, ast.If) and is_guard("test", st.test):
-                order.append("guard")
-            elif var and re.fullmatch(r"self\.source_file\.set_buffer\(%s\.get_buffer\(\)\)" % re.escape(var), t):
-                order.append("set_buffer")
-            elif "set_buffer" in t:
-                order.append("set_buffer?:" + t[:50])
-            elif t == "self.source_file.write_file()":
-                order.append("write")
+        for st in ast.walk(fn_node):
+            if isinstance(st, ast.Assign) and cont and U(st.targets[0]) == cont and isinstance(st.value, ast.Call):
+                ctor = st.value
+        kind = _branch_kind(fn_node, node)
+        if ctor is None:
+            c.undecided(site + ":container", "construction-not-found", "", repo.loc(fn, node))
+        else:
+            c.check(not ctor.args and not ctor.keywords, site + ":fresh", "fresh empty container", "constructed as %s" % U(ctor),
+                    "the image is not rebuilt from an empty container: %s" % U(ctor), repo.loc(fn, node))
+            cname = U(ctor.func)
+            if cname in KINDS.values() and kind in KINDS:
+                c.check(cname == KINDS[kind], site + ":kind", "%s image built with %s" % (kind, KINDS[kind]), "%s image built with %s" % (kind, cname),
+                        "a %s image is built with %s" % (kind, cname), repo.loc(fn, node))
             else:
-                order.append("other:" + t[:30])
-        c.check(ctor == KINDS.get(kind), site + ":container", "built with %s" % KINDS.get(kind), "built with %s" % ctor,
-                "a %s image is built with %s" % (kind, ctor), repo.loc(fn, b))
-        core = [o for o in order if o in ("new", "add_files", "set_buffer", "write")]
-        c.check(core == ["new", "add_files", "set_buffer", "write"] and not [o for o in order if ":" in o and not o.startswith("other")],
-                site + ":sequence", "new -> add_files(whole list) -> set_buffer(container buffer) -> write", "sequence %s" % order,
-                "save_virtual_file must rebuild the %s image from the WHOLE file list, hand exactly that buffer to the source file and only then write; it does %s" % (kind, order), repo.loc(fn, b))
-        # rebuild happens before the write, so a failing add leaves the host file alone
-    for k in KINDS:
-        if k not in seen:
-            c.finding("save_virtual_file:%s" % k, "kind not handled", "save_virtual_file has no branch for %s" % k, where)
+                # table driven: (kind, class) pairs in a module/class level constant
+                pairs = _kind_table(repo, fn)
+                if pairs is None:
+                    c.undecided(site + ":kind", "kind/class pairing not extractable", "%s / %s" % (kind, cname), repo.loc(fn, node))
+                else:
+                    bad = {k: v for k, v in pairs.items() if KINDS.get(k) != v}
+                    c.check(not bad and set(pairs) == set(KINDS), "save_virtual_file:kind-table", "CASSETTE, BINARY, DISK paired with their containers", "pairs %s" % pairs,
+                            "save_virtual_file pairs container kinds and classes as %s" % pairs, where)
+    kinds_seen = {_branch_kind(fn_node, g.nodes[w][2]) for w in writes}
+    if kinds_seen <= set(KINDS) and kinds_seen:
+        for k in KINDS:
+            if k not in kinds_seen:
+                c.finding("save_virtual_file:%s" % k, "kind not handled", "save_virtual_file has no branch for %s" % k, where)
     # add_coco_file appends at the end
     ac = repo.method(VF, "add_coco_file")
     p = [x for x in ac.params if x != "self"][0]
     muts = [n for n in ast.walk(ac.node) if isinstance(n, ast.Call) and isinstance(n.func, ast.Attribute) and U(n.func.value) == "self.coco_file_list"]
     stores = [n for n in ast.walk(ac.node) if isinstance(n, (ast.Assign, ast.AugAssign)) and "coco_file_list" in U(n)]
-    appends = [n for n in muts if n.func.attr == "append" and [U(a) for a in n.args] == [p]]
+    appends = [n for n in muts if n.func.attr == "append" and [U(a_) for a_ in n.args] == [p]]
     others = [n for n in muts if n.func.attr in ("insert", "extend", "pop", "remove", "clear", "reverse", "sort") or (n.func.attr == "append" and n not in appends)]
     if len(appends) == 1 and not others and not stores:
         c.ok("add_coco_file", "appends the file at the end of the list", repo.loc(ac, ac.node))
@@ -104,15 +166,51 @@ def vf1(ctx, c):
     af = repo.method("VirtualFileContainer", "add_files")
     loops = [n for n in ast.walk(af.node) if isinstance(n, ast.For)]
     p = [x for x in af.params if x != "self"][0]
-    good = len(loops) == 1 and U(loops[0].iter) == p and [U(s) for s in loops[0].body] == ["self.add_file(%s)" % U(loops[0].target)]
-    c.check(good, "VirtualFileContainer.add_files", "add_file for each file, in list order", "body %s" % [U(s)[:50] for s in body_without_doc(af.node)],
-            "VirtualFileContainer.add_files does not add every file of the list in order", repo.loc(af, af.node))
-    for cls in ("BinaryFile",):
-        bf = repo.method(cls, "add_file", inherited=False)
-        p = [x for x in bf.params if x != "self"][0]
-        t = [U(s) for s in body_without_doc(bf.node)]
-        c.check(t == ["self.buffer.extend(%s.data)" % p], "BinaryFile.add_file", "raw image = the file's data", "does %s" % t,
-                "BinaryFile.add_file must append exactly the data bytes; it does %s" % t, repo.loc(bf, bf.node))
+    if len(loops) == 1 and isinstance(loops[0].target, ast.Name):
+        it = U(loops[0].iter)
+        calls = [x for x in ast.walk(loops[0]) if isinstance(x, ast.Call) and U(x.func) == "self.add_file"]
+        if it == p and len(calls) == 1 and [U(a_) for a_ in calls[0].args] == [loops[0].target.id]:
+            c.ok("VirtualFileContainer.add_files", "add_file for each file, in list order", repo.loc(af, af.node))
+        elif it != p and re.search(r"reversed|sorted|\[::-1\]|\[-1:\]|\[1:\]|\[:-1\]", it):
+            c.finding("VirtualFileContainer.add_files", "iterates %s" % it, "VirtualFileContainer.add_files iterates %s instead of the list in order" % it, repo.loc(af, af.node))
+        else:
+            c.undecided("VirtualFileContainer.add_files", "shape-not-recognised", it, repo.loc(af, af.node))
+    else:
+        c.undecided("VirtualFileContainer.add_files", "shape-not-recognised", "", repo.loc(af, af.node))
+    bf = repo.method("BinaryFile", "add_file", inherited=False)
+    p = [x for x in bf.params if x != "self"][0]
+    ext = [x for x in ast.walk(bf.node) if isinstance(x, ast.Call) and U(x.func) in ("self.buffer.extend", "self.buffer.append") or isinstance(x, ast.AugAssign) and U(x.target) == "self.buffer"]
+    if len(ext) == 1:
+        arg = U(ext[0].args[0]) if isinstance(ext[0], ast.Call) and ext[0].args else (U(ext[0].value) if isinstance(ext[0], ast.AugAssign) else "")
+        c.check(arg == "%s.data" % p and not (isinstance(ext[0], ast.Call) and U(ext[0].func).endswith("append")), "BinaryFile.add_file", "raw image = the file's data", "appends %s" % arg,
+                "BinaryFile.add_file must append exactly the data bytes; it appends %s" % arg, repo.loc(bf, bf.node))
+    else:
+        c.undecided("BinaryFile.add_file", "shape-not-recognised", "", repo.loc(bf, bf.node))
+
+
+def _kind_table(repo, fn):
+    """{kind: class} from a constant sequence of (VirtualFileType.K, Class) pairs used by the function, or None"""
+    for n in ast.walk(fn.node):
+        if isinstance(n, ast.For) and isinstance(n.iter, ast.Name):
+            val = fn.module.assigns.get(n.iter.id) or (fn.cls.assigns.get(n.iter.id) if fn.cls else None)
+            if isinstance(val, (ast.Tuple, ast.List)):
+                pairs = {}
+                for e in val.elts:
+                    if isinstance(e, (ast.Tuple, ast.List)) and len(e.elts) >= 2:
+                        m = re.fullmatch(r"VirtualFileType\.(\w+)", U(e.elts[0]))
+                        if m:
+                            pairs[m.group(1)] = U(e.elts[1])
+                return pairs or None
+        if isinstance(n, ast.Subscript) and isinstance(n.value, ast.Name):
+            val = fn.module.assigns.get(n.value.id) or (fn.cls.assigns.get(n.value.id) if fn.cls else None)
+            if isinstance(val, ast.Dict):
+                pairs = {}
+                for k, v in zip(val.keys, val.values):
+                    m = re.fullmatch(r"VirtualFileType\.(\w+)", U(k))
+                    if m:
+                        pairs[m.group(1)] = U(v)
+                return pairs or None
+    return None
 
 
 def _inline_raising_helpers(repo, fn):
@@ -153,11 +251,14 @@ def _inline_raising_helpers(repo, fn):
 
 
 def _branch_kind(fn_node, node):
-    for b in body_without_doc(fn_node):
-        if isinstance(b, ast.If) and any(x is node for x in ast.walk(b)):
+    """the container kind whose test encloses the node (innermost `virtual_file_type == VirtualFileType.K` whose body holds it)"""
+    best = "?"
+    for b in ast.walk(fn_node):
+        if isinstance(b, ast.If) and "virtual_file_type" in U(b.test) and any(x is node for st in b.body for x in ast.walk(st)):
             m = re.search(r"VirtualFileType\.(\w+)", U(b.test))
-            return m.group(1) if m else "?"
-    return "?"
+            if m:
+                best = m.group(1)
+    return best
 
 
 WRITE_APIS = ("os.open", "os.write", "os.remove", "os.unlink", "os.rename", "os.replace", "os.truncate", "os.ftruncate", "os.rmdir", "os.removedirs", "os.mkdir", "os.makedirs",
